@@ -14,6 +14,7 @@ import Gengo.Driver.Flatten
 import Gengo.Driver.Universe
 import Gengo.Driver.Comments
 import Gengo.Driver.BuildTag
+import Gengo.Driver.DeepCopy
 open Gengo Gengo.Proto
 
 /-- state of the stateful components (one history at a time per component) -/
@@ -25,6 +26,7 @@ structure DState where
   set : Driver.SetGen.St := {}
   uni : Driver.Universe.St := {}
   bt : Driver.BuildTag.St := []
+  dc : Driver.DeepCopy.St := {}
 
 def dispatch (s : DState) (f : List Str) : DState × Str :=
   match f with
@@ -40,6 +42,9 @@ def dispatch (s : DState) (f : List Str) : DState × Str :=
     else if c = str "bt" then
       let (t, o) := Driver.BuildTag.handle s.bt rest
       ({ s with bt := t }, o)
+    else if c = str "dc" then
+      let (t, o) := Driver.DeepCopy.handle s.dc rest
+      ({ s with dc := t }, o)
     else if c = str "trk" then
       let (t, o) := Driver.Tracker.handle s.trk rest
       ({ s with trk := t }, o)
